@@ -120,4 +120,56 @@ theorem gobDecode_eq (z : Dec) (buf : List Nat)
           simp [g, Gen.Facts.GobDecode, hemp, hne, hl0, hv, h6, h6', hmode, hacc, hfm, hw8, hmoI, hfoI, hmode5, hmode5']
     · simp [g, Gen.Facts.GobDecode, hemp, hne, hl0, hv]
 
+/-! ### `GobEncode` -/
+
+/-- the attribute byte of the model's `gobEncode`, over plain values -/
+def hdrOf (mo : Mode) (f : Form) (a : Int) (n : Bool) : Nat :=
+  (mo.toNat % 8) * 32 + ((a + 1).toNat % 4) * 8 + (f.toNat % 4) * 2 + (if n then 1 else 0)
+
+theorem hdr_eq (mo : Mode) (f : Form) (a : Int) (n : Bool) (ha : a = -1 ∨ a = 0 ∨ a = 1) :
+    (let b := ((((mo.toNat &&& 7) <<< 5) % 256) ||| (((Int.toNat (((Gen.Facts.wrapI8 (a + 1)) % 4) % 256)) <<< 3) % 256)) |||
+      (((f.toNat &&& 3) <<< 1) % 256)
+     if n then b ||| 1 else b) = hdrOf mo f a n := by
+  rcases ha with h | h | h <;> subst h <;> cases mo <;> cases f <;> cases n <;> decide
+
+/-- number of mantissa words the model's `gobEncode` writes -/
+def nWords (prec len : Nat) : Nat :=
+  let n0 := (prec + (DW - 1)) / DW
+  if len < n0 then len else n0
+
+/-- `GobEncode` as regenerated: buffer size, version byte, attribute byte (mode, accuracy + 1, form and sign packed
+    with shifts and ors in byte arithmetic), precision field, and for finite values the exponent field as uint32
+    and the index of the first mantissa word that is encoded — exactly the quantities of the model's `gobEncode`. -/
+theorem gobEncode_eq (x : Dec) (hacc : x.acc = -1 ∨ x.acc = 0 ∨ x.acc = 1) (hprec : x.prec < 4294967296)
+    (hlen : x.len < 1099511627776) :
+    Gen.Facts.GobEncode false x.form.toNat x.prec x.len x.mode.toNat x.acc x.neg x.exp =
+      { outcome := 0, tail := 0,
+        mtrace := [(1, [if x.form = .finite then 6 + (4 + (nWords x.prec x.len : Int) * 8) else 6]), (2, [1]),
+            (3, [(hdrOf x.mode x.form x.acc x.neg : Int)]), (4, [(x.prec : Int)])] ++
+          (if x.form = .finite then [(5, [((x.exp % 4294967296).toNat : Int)]), (6, [(x.len : Int) - (nWords x.prec x.len : Int)])] else []) } := by
+  have hb := hdr_eq x.mode x.form x.acc x.neg hacc
+  simp only [] at hb
+  have hn0 : Gen.Facts.wrapI64 (((x.prec : Int) + 18) % 18446744073709551616 / 19) = ((x.prec : Int) + 18) / 19 := by
+    unfold Gen.Facts.wrapI64; omega
+  unfold Gen.Facts.GobEncode
+  have hft : (x.form.toNat = 1) = (x.form = .finite) := by cases x.form <;> simp [Form.toNat]
+  have hbn := hb
+  by_cases hf : x.form = .finite
+  · by_cases hl : (x.len : Int) < ((x.prec : Int) + 18) / 19
+    · have hl' : x.len < (x.prec + 18) / 19 := by omega
+      have hnw : ((nWords x.prec x.len : Nat) : Int) = (x.len : Int) := by unfold nWords DW; simp [hl']
+      have w1 : Gen.Facts.wrapI64 (6 + Gen.Facts.wrapI64 (4 + Gen.Facts.wrapI64 ((x.len : Int) * 8))) = 6 + (4 + (x.len : Int) * 8) := by
+        unfold Gen.Facts.wrapI64; omega
+      have w2 : Gen.Facts.wrapI64 ((x.len : Int) - (x.len : Int)) = (x.len : Int) - (x.len : Int) := by unfold Gen.Facts.wrapI64; omega
+      have w0 : Gen.Facts.wrapI64 0 = 0 := by decide
+      cases hn : x.neg <;> simp [hn, hf] at hbn <;> simp [hft, hf, hn0, hl, hnw, w0, w1, w2, hbn, hn]
+    · have hl' : ¬ x.len < (x.prec + 18) / 19 := by omega
+      have hnw : ((nWords x.prec x.len : Nat) : Int) = ((x.prec : Int) + 18) / 19 := by unfold nWords DW; simp [hl']
+      have w1 : Gen.Facts.wrapI64 (6 + Gen.Facts.wrapI64 (4 + Gen.Facts.wrapI64 ((((x.prec : Int) + 18) / 19) * 8))) = 6 + (4 + (((x.prec : Int) + 18) / 19) * 8) := by
+        unfold Gen.Facts.wrapI64; omega
+      have w2 : Gen.Facts.wrapI64 ((x.len : Int) - (((x.prec : Int) + 18) / 19)) = (x.len : Int) - (((x.prec : Int) + 18) / 19) := by unfold Gen.Facts.wrapI64; omega
+      have w0 : Gen.Facts.wrapI64 0 = 0 := by decide
+      cases hn : x.neg <;> simp [hn, hf] at hbn <;> simp [hft, hf, hn0, hl, hnw, w0, w1, w2, hbn, hn]
+  · cases hn : x.neg <;> simp [hn] at hbn <;> simp [hft, hf, hbn, hn]
+
 end Decimal.GenGob
